@@ -584,6 +584,42 @@ def gen(rng, tier):
             sc, val = wrap(s, v, defs)
         cases.append(mk(sc, val))
 
+    # numeric keywords in COMBINATION: multipleOf with each kind of bound, both sides of the bound, quotient on the other
+    # side of the bound than the value (an in-place division would show)
+    nb = rng.fork("numcombo")
+    for m in (2, 3, 5, 10):
+        for kw in ("minimum", "maximum", "exclusiveMinimum", "exclusiveMaximum"):
+            for bnd in (1, 2, 5, 10, 12, 100):
+                for v in (0, 1, 2, 3, 4, 5, 6, 9, 10, 12, 15, 20, 50, 100, 101):
+                    if not thorough and not nb.chance(1, 3) and not (v % m == 0 and (v >= bnd) != (v // m >= bnd)):
+                        continue
+                    sc, val = wrap({"type": "number", "multipleOf": m, kw: bnd}, v, {})
+                    cases.append(mk(sc, val))
+    sc, val = wrap({"multipleOf": 5, "minimum": 10, "maximum": 100}, 10, {})
+    cases.append(mk(sc, val))
+    # chains of $ref through definitions that carry SIBLING keywords (each hop adds a constraint; none may be dropped)
+    sib = [({"maxLength": 3}, ["abc", "toolong"]), ({"minLength": 2}, ["a", "ab"]), ({"pattern": "^a"}, ["ab", "ba"]),
+           ({"minimum": 10}, [9, 10]), ({"maximum": 5}, [5, 6]), ({"multipleOf": 2}, [3, 4]),
+           ({"enum": ["x", 1]}, ["x", "y", 1, 2]), ({"const": "k"}, ["k", "l"]),
+           ({"required": ["q"]}, [{"q": 1}, {"r": 1}]), ({"minProperties": 1}, [{}, {"a": 1}]),
+           ({"properties": {"q": {"type": "string"}}}, [{"q": "s"}, {"q": 1}]), ({"minItems": 1}, [[], [1]]),
+           ({"items": {"type": "number"}}, [[1], ["s"]])]
+    ends = [{"type": "string"}, {"type": "number"}, {}, {"type": "object"}, {"type": "array"}, True]
+    for end in ends:
+        for (k1, vals1) in sib:
+            for (k2, vals2) in [({}, [])] + (sib if thorough else nb.shuffle(sib)[:3]):
+                for hops in (1, 2, 3):
+                    defs = {"end": end, "h1": dict({"$ref": "#/$defs/end"}, **k1)}
+                    top = "h1"
+                    if hops >= 2:
+                        defs["h2"] = dict({"$ref": "#/$defs/h1"}, **k2)
+                        top = "h2"
+                    if hops >= 3:
+                        defs["h3"] = {"$ref": "#/$defs/h2"}
+                        top = "h3"
+                    for v in list(vals1) + list(vals2):
+                        sc, val = wrap({"$ref": "#/$defs/" + top}, v, defs)
+                        cases.append(mk(sc, val))
     # multipleOf with operands up to 2^64-1 (inside the theorems; the Go code divides big.Floats with a 64-bit mantissa)
     gm = rng.fork("bigmul")
     for _ in range(4000 if thorough else 120):
